@@ -243,9 +243,8 @@ def canon(world, tr):
 # --------------------------------------------------------------------------------------------
 # BFS
 # --------------------------------------------------------------------------------------------
-def get_ops(tier, depth_here):
+def get_ops(maxlen, depth_here):
     ops = []
-    maxlen = 2 if tier == "quick" else 3
     for n in range(1, maxlen + 1):
         for combo in itertools.permutations(URIS, n):
             if n == 3 and (U["big"] in combo and U["missing"] in combo):
@@ -254,9 +253,9 @@ def get_ops(tier, depth_here):
     return ops
 
 
-def enabled_ops(tr, tier, depth_here):
+def enabled_ops(tr, maxlen, depth_here):
     m = tr.m
-    ops = list(get_ops(tier, depth_here))
+    ops = list(get_ops(maxlen, depth_here))
     cached = [u for u in URIS if u in m.files]
     for u in cached:
         ops.append(("remove", u))
@@ -309,7 +308,7 @@ def run_bfs(unit):
         nxt = []
         for hist in cur:
             ws, ts = build(hist, limit, False, api)
-            ops = enabled_ops(ts, tier, level)
+            ops = enabled_ops(ts, unit.get("maxlen", 2), level)
             ws.close()
             if level == 0 and first is not None:
                 ops = [o for i, o in enumerate(ops) if i % unit["nshards"] == first]
@@ -505,12 +504,14 @@ def run_sched(unit):
 # --------------------------------------------------------------------------------------------
 def units(tier):
     us = []
-    depth = 3 if tier == "quick" else 4
-    nshards = 8 if tier == "quick" else 16
-    for limit in (2500, 3500):
-        for s in range(nshards):
-            us.append({"name": f"bfs:limit{limit}:shard{s}", "kind": "bfs", "limit": limit, "depth": depth,
-                       "first": s, "nshards": nshards, "cost": 10})
+    # quick: depth 3, requests of 1..2 URIs.  thorough: depth 4 with requests of 1..2 URIs and,
+    # separately, depth 3 with requests of 1..3 URIs (shards partition by the first operation)
+    configs = [(3, 2, 8)] if tier == "quick" else [(4, 2, 32), (3, 3, 16)]
+    for depth, maxlen, nshards in configs:
+        for limit in (2500, 3500):
+            for s in range(nshards):
+                us.append({"name": f"bfs:d{depth}:get{maxlen}:limit{limit}:shard{s}", "kind": "bfs", "limit": limit,
+                           "depth": depth, "maxlen": maxlen, "first": s, "nshards": nshards, "cost": 10 * depth})
     for limit in (2500, 3500):
         us.append({"name": f"bfs-module-api:limit{limit}", "kind": "bfs", "limit": limit, "depth": 2, "api": "module", "cost": 3})
         us.append({"name": f"bfs-relative-path:limit{limit}", "kind": "bfs", "limit": limit, "depth": 2, "api": "relative", "cost": 3})
